@@ -1170,6 +1170,12 @@ func (r *c16BlockRun) step(k int, op c16Op, sweep bool) bool {
 			}
 			pos += len(want)
 		}
+		// the slice belongs to the caller now (TxLoc computes its answer afresh; a caller may rebase the
+		// offsets in place): what the next call returns must not depend on what is done to it
+		for i := range locs {
+			locs[i].TxStart += 8
+			locs[i].TxLen = 0
+		}
 
 	case c16OpSetHeight:
 		if msg, p := mc.Guard(func() { b.SetHeight(int32(op.arg)) }); p {
